@@ -312,7 +312,11 @@ UNKNOWN_NAMES = ["case.xyz", "case.txt", "case", "case.PY", "case.Py", "case.py.
 
 def m_unknown_ext(r, lang, b):
     name = r.choice(UNKNOWN_NAMES)
-    kind = r.choice(["as-is", "shebang-python", "shebang-sh", "shebang-bad-utf8", "shebang-cr"])
+    kind = r.choice(["as-is", "shebang-python", "shebang-sh", "shebang-bad-utf8", "shebang-cr", "shebang-degenerate", "shebang-degenerate"])
+    if kind == "shebang-degenerate":
+        name = r.choice(["case", "tool", "run-me", "Makefile", "case.", ".case"])
+        first = r.choice(SHEBANG_LINES)
+        return f"{name}:{kind}:{first[:12]!r}", first + (b if r.random() < 0.5 else b""), name
     if kind == "shebang-python":
         b = b"#!/usr/bin/env python3\n" + b
     elif kind == "shebang-sh":
@@ -649,3 +653,68 @@ def offender_from(r, cls: str, lang: str, donor: bytes, **kw):
     kind, data = res[0], res[1]
     name = res[2] if len(res) == 3 else "case" + c11_pool.EXT[lang]
     return {"cls": cls, "kind": kind, "lang": lang, "name": name, "data": data}
+
+
+# ====================================================================== files that END INSIDE a multi-line construct
+# (what truncation / a missing closing token leaves behind).  Placed directly before healthy files with cross-file findings they
+# show whether any analyzer state survives from one file to the next.
+def open_constructs(lang: str) -> list[tuple[str, bytes]]:
+    if lang == "py":
+        return [
+            ("paren-import", b"import os\nfrom collections import (\n    OrderedDict,\n    defaultdict,\n"),
+            ("paren-import-bare", b"from typing import (\n"),
+            ("triple-string", b'text = """\nfirst line\nsecond line\n'),
+            ("docstring", b'"""\nPurpose: cut off\n\nScope: x\n'),
+            ("single-string", b"text = 'abc\n"),
+            ("bracket-list", b"items = [\n    1,\n    2,\n"),
+            ("call-args", b"result = compute(\n    alpha,\n    beta,\n"),
+            ("dict", b"table = {\n    'a': 1,\n"),
+            ("backslash", b"value = 1 + \\\n"),
+            ("def-header", b"def handler(request):\n"),
+            ("decorator", b"@decorator\n"),
+            ("ignore-start", b"# thailint: ignore-start\nvalue = 4242\n"),
+            ("dry-ignore-block", b"# dry: ignore-block\nvalue = 4242\n"),
+            ("fstring", b"text = f\"{value\n"),
+        ]
+    if lang in ("ts", "js"):
+        return [
+            ("import-braces", b"import {\n  alpha,\n  beta,\n"),
+            ("block-comment", b"/* comment\nmore\n"),
+            ("jsdoc", b"/**\n * Purpose: cut off\n * Scope: x\n"),
+            ("template-literal", b"const text = `abc\n${value\n"),
+            ("string", b"const text = 'abc\n"),
+            ("array", b"const items = [\n  1,\n  2,\n"),
+            ("call-args", b"const result = compute(\n  alpha,\n  beta,\n"),
+            ("object", b"const table = {\n  a: 1,\n"),
+            ("function-body", b"function handler(request) {\n  const x = 4242;\n"),
+            ("class-body", b"class Handler {\n  run() {\n"),
+            ("ignore-start", b"// thailint: ignore-start\nconst value = 4242;\n"),
+            ("dry-ignore-block", b"// dry: ignore-block\nconst value = 4242;\n"),
+            ("regex", b"const re = /abc[\n"),
+        ]
+    return [
+        ("use-braces", b"use std::{\n    fs,\n    io,\n"),
+        ("block-comment", b"/* comment\nmore\n"),
+        ("raw-string", b"fn f() { let s = r#\"abc\n"),
+        ("string", b"fn f() { let s = \"abc\n"),
+        ("fn-body", b"async fn handler() {\n    let x = 4242;\n"),
+        ("impl-body", b"impl Handler {\n    fn run(&self) {\n"),
+        ("macro", b"fn f() { let v = vec![\n    1,\n"),
+        ("attribute", b"#[cfg(\n"),
+        ("match", b"fn f(x: u32) -> u32 {\n    match x {\n        0 => 1,\n"),
+        ("ignore-start", b"// thailint: ignore-start\nconst V: u32 = 4242;\n"),
+    ]
+
+
+SHEBANG_LINES = [b"#!", b"#!\n", b"#! ", b"#!  \t\n", b"#! x\n", b"#!x", b"#!\x00python\n", b"#!" + b"a" * 5000 + b"\n", b"#!/usr/bin/env", b"#!/usr/bin/env \n",
+                 b"#! /usr/bin/python -u\n", b"#!\r\n", b"#!\xff\n", b"#!#!\n", b"#!\n#!python\n", b"#!\t\n", b"#!/usr/bin/env  python3   -u  \n", b"#!" + b" " * 3000]
+
+
+def shebang_sweep() -> list[dict]:
+    """extension-less files whose first line is a degenerate shebang (deterministic part of every run)"""
+    out = []
+    for i, first in enumerate(SHEBANG_LINES):
+        name = ["case", "tool", "run-me"][i % 3]
+        body = b"" if i % 2 else b"value = 4242\nprint(value)\n"
+        out.append({"cls": "unknown-ext", "kind": f"shebang-sweep:{first[:14]!r}", "lang": "py", "name": name, "data": first + body})
+    return out
